@@ -2,6 +2,7 @@ import DpapiNg.Drv.Common
 import DpapiNg.Model.RpcClient
 import DpapiNg.Model.Epm
 import DpapiNg.Model.ToyCrypto
+import DpapiNg.Model.Online
 namespace DpapiNg.Drv
 open DpapiNg DpapiNg.Rpc DpapiNg.RpcClient DpapiNg.Epm
 
@@ -204,6 +205,18 @@ def dispatchRpc (toks : List String) : Option String :=
     let r := bind auth sc ctxs srv
     let out := match r.outcome with | .ok p => "ok " ++ showPdu p | .error e => "err " ++ e.name
     some s!"{joinOr (r.events.map showEvent) ","} {b01 r.signHeader} {out}"
+  | ["conv_eptmap"] => some (showR (Online.eptMapRequestWire.map toHex))
+  | ["conv_epmbind"] => some (showR ((Online.bindWire Online.epmContexts none 0).map toHex))
+  | ["conv_isdbind", tok, prov] => do
+    some (showR ((Online.bindWire Online.isdKeyContexts (some (← parseHex tok)) (← nat? prov)).map toHex))
+  | ["conv_alter", tok, prov, sign] => do
+    some (showR ((Online.alterWire [Online.isdKeyContexts.head!] (← parseHex tok) (← nat? prov) (← bool? sign)).map toHex))
+  | ["conv_getkey", a, sign, sd, rk, l0, l1, l2] => do
+    match ← auth? a with
+    | some auth =>
+      let rkb ← (if rk = "none" then some none else (parseHex rk).map some)
+      some (showR ((Online.getKeyRequestWire auth (← bool? sign) ⟨← parseHex sd, rkb, ← int? l0, ← int? l1, ← int? l2, none⟩).map toHex))
+    | none => none
   | "bindresult" :: cs :: desired :: h :: t :: body => do
     let ctxs ← (splitOnNE cs "|").mapM ctxEl?
     some (showR ((processBindResult ctxs ⟨← header? h, ← trailer? t, ← body? body⟩ (← nat? desired)).map fun _ => "accepted"))
